@@ -48,7 +48,7 @@ def run(report, tier, seed):
         ybin = vlib.build_yardl(sc)
         rng = random.Random(seed * 6007 + 10)
         n = 700 if quick else 12000
-        cases = list(generate_cases(rng, sc, seed, n)) + list(layered_cases(rng, sc, 6 if quick else 40))
+        cases = list(corpus_cases(sc)) + list(generate_cases(rng, sc, seed, n)) + list(layered_cases(rng, sc, 6 if quick else 40))
         with concurrent.futures.ThreadPoolExecutor(max_workers=vlib.NCPU) as ex:
             results = list(ex.map(lambda c: execute(ybin, c), cases))
         for c, (rc, out, secs, cmd) in zip(cases, results):
@@ -202,6 +202,29 @@ def generate_cases(rng, sc, seed, n):
 def q(s):
     import json
     return json.dumps(s)
+
+
+CORPUS = [
+    # minimised inputs of past failures: they run first on every tier
+    ("expression-subscript-after-as", "R: !record\n  fields:\n    a: float32?\n  computedFields:\n    c: \"a as int [0]\"\n", None),
+    ("expression-subscript-after-dot", "R: !record\n  fields:\n    a: float32?\n  computedFields:\n    c: \"1 as 's' [\"\n", None),
+    ("null-definition-name", "null: \"T*\"\n~: int\nR: !record\n  fields:\n    a: int\n", None),
+    ("seq-tag-on-mapping", "P: !protocol\n  sequence:\n    s: !!seq {a: date, b: int}\n", None),
+    ("record-tag-on-sequence", "G<T>: !record\n- fields:\n    f0: uint16\nE: !enum\n- values: [a]\nP: !protocol [a]\nX: !generic [x]\n", None),
+    ("map-tag-on-sequence", "A: !array {items: int, dimensions: !!map [x]}\nF: !enum\n  values: !!map [a, b, c]\nR: !record\n  fields: !!map [a]\n", None),
+    ("self-version", "R: !record\n  fields:\n    a: int\nP: !protocol\n  sequence:\n    s: R\n", "namespace: Fz\nversions:\n  v0: .\n"),
+    ("nested-generic-arguments-30-deep", "Box<T>: !record\n  fields:\n    v: T\nZ: \"" + "Box<" * 30 + "int" + ">" * 30 + "\"\nP: !protocol\n  sequence:\n    a: Z\n", None),
+    ("generic-null-argument", "Box<T>: !record\n  fields:\n    v: T\nZ: !generic {name: Box, args: [null]}\n", None),
+    ("empty-definitions", "E: !enum\nR: !record\nP: !protocol\nA:\n", None),
+]
+
+
+def corpus_cases(sc):
+    for name, model, man in CORPUS:
+        yield Case("corpus:" + name, sc.path(f"corpus-{name}/pkg"), {"model.yml": model}, man if man is not None else "namespace: Fz\n")
+        yield Case("corpus:" + name, sc.path(f"corpus-{name}-gen/pkg"), {"model.yml": model},
+                   (man if man is not None else "namespace: Fz\n") + "python:\n  outputDir: ../out_py\ncpp:\n  sourcesOutputDir: ../out_cpp\n  generateCMakeLists: false\nmatlab:\n  outputDir: ../out_matlab\n",
+                   generate=True)
 
 
 def layered_cases(rng, sc, n):
